@@ -187,16 +187,16 @@ static void emit_sample(const char* where)
   }
   for (auto* h : hosts_v) {
     double load = h->get_cpu()->get_constraint() ? h->get_load() : -1; // the TI model has no LMM constraint
-    if (g_sample < 2 && load <= 0)
+    if (g_sample < 2 && load <= 0 && not(g_host_energy && g_energy >= 2))
       continue;
     printf("H %s load=%.17g speed=%.17g avail=%.17g pstate=%lu on=%d cores=%d", h->get_cname(), load, h->get_speed(),
            g_skipavail ? -1.0 : h->get_available_speed(), h->get_pstate(), (int)h->is_on(), h->get_core_count());
-    if (g_host_energy && g_energy >= 2)
+    if (g_host_energy && g_energy >= 2 && h->get_property("wattage_per_state"))
       printf(" energy=%.17g", sg_host_get_consumed_energy(h));
     printf("\n");
   }
   for (auto* l : links_v) {
-    if (g_sample < 2 && l->get_load() <= 0)
+    if (g_sample < 2 && l->get_load() <= 0 && not(g_link_energy && g_energy >= 2))
       continue;
     printf("L %s load=%.17g bw=%.17g lat=%.17g on=%d", l->get_cname(), l->get_load(), l->get_bandwidth(),
            l->get_latency(), (int)l->is_on());
@@ -398,6 +398,7 @@ static int run_case(const Case& c)
     argv.push_back(a.data());
   argv.push_back(nullptr);
   int argc = (int)args.size();
+  sg4::Engine e(&argc, argv.data());
   for (auto const& p : c.plugins) {
     if (p == "host_energy") {
       sg_host_energy_plugin_init();
@@ -407,7 +408,6 @@ static int run_case(const Case& c)
       g_link_energy = true;
     }
   }
-  sg4::Engine e(&argc, argv.data());
   g_energy   = c.energy;
   g_sample   = c.sample;
   g_skipavail = c.skipavail;
